@@ -370,7 +370,7 @@ pub fn run(cfg: &Cfg, rep: &mut Report) -> PropMeta {
     run_cases(cfg, "refusals", cfg.n(1500, 20000) as u64, rep, |i, rng, rep| refusals(cfg, "refusals", i, rng, rep));
     PropMeta {
         id: "C03", level: "exploration",
-        rule: "typed random CKKS programs (negate, add, sub, add_many, multiply, square, add/sub/multiply_plain, relinearize, rescale_to_next, mod_switch_to_next; random API form) over fresh ciphertexts with negative / imaginary / mixed-magnitude slots, scales 2^10..~2^(log q/3) and non-power-of-two scales after rescaling, chains of 2..6 primes of mixed sizes, N=4..64 (mid 128..1024, big 4096/8192); refusal scenarios (levels differ, scales differ by 2^-30 or x2, product scale too large, scale too large for the next level) in all three API forms. distinct = distinct (op, size, level) value cells + refusal cells",
+        rule: "typed random CKKS programs (negate, add, sub, add_many, multiply, square, add/sub/multiply_plain, relinearize, rescale_to_next, mod_switch_to_next; random API form) over fresh ciphertexts with negative / imaginary / mixed-magnitude slots, scales 2^10..~2^(log q/3) and non-power-of-two scales after rescaling, chains of 2..6 primes of mixed sizes, N=4..64 (mid 128..1024, big 4096/8192); refusal scenarios (levels differ, scales differ by 2^-30 or x2, product scale too large, scale too large for the next level) in all three API forms. distinct = distinct (op, size, level) value cells + refusal cells. rescale_to (1..3 levels in one call, three forms) is a program operation of its own: well-typed iff every one-level step of the walk leaves a fitting scale",
         assumptions: vec!["worst-case slot error tracked per element (fresh N*B/scale, products E1*M2+E2*M1+E1*E2, key switch N*KS/scale, rescale N*(sum N^j/2+1)/scale') plus the double-precision allowance of the library's decode path (he::ckks_fp_tolerance)".into(),
             "values asserted only while the worst-case coefficient magnitude stays below q_level/4".into(),
             "expected scale computed with the same f64 operations (product; quotient by the dropped prime)".into(),
